@@ -32,6 +32,11 @@ pub fn workload_params() -> GenParams {
     p.max_ops = 70;
     p.max_chunks = 6;
     p.max_universe = 16;
+    // interpreted here as: IterNew = a scan that is not preceded by gets (the tables are opened by the
+    // iterator itself, e.g. right after a reopen), IterOp = a seek walk on one iterator that retries a
+    // failed seek
+    p.w.iter_new = 5;
+    p.w.iter_op = 5;
     p
 }
 
@@ -187,6 +192,74 @@ impl<'a> Run<'a> {
                     "scan ended without an error but did not return {} whose write was acknowledged",
                     hex(k)
                 ));
+            }
+        }
+        Ok(())
+    }
+
+    /// One iterator, several seeks (each followed by a few steps). A seek that returns an error is
+    /// retried once on the same iterator. Whenever a seek returned Ok and no error is pending, the
+    /// iterator must stand on an allowed pair at or after the target and must not have skipped a key
+    /// that is definitely present; the same for every step.
+    fn check_seeks(&mut self, db: &DB, start: usize) -> Result<(), String> {
+        let mut it = match db.new_iterator(ReadOptions::default()) {
+            Ok(it) => it,
+            Err(_) => {
+                self.info.errors_returned += 1;
+                return Ok(());
+            }
+        };
+        let n = self.case.universe.len();
+        let present: Vec<Vec<u8>> = self.case.universe.iter().filter(|k| !self.allowed(k).contains(&None)).cloned().collect();
+        for round in 0..4usize {
+            let target = self.case.universe[(start + round * 5) % n].clone();
+            let mut positioned = it.seek(&target).is_ok();
+            if !positioned {
+                self.info.errors_returned += 1;
+                positioned = it.seek(&target).is_ok();
+                if !positioned {
+                    self.info.errors_returned += 1;
+                    continue;
+                }
+            }
+            let mut lower = target.clone();
+            let mut inclusive = true;
+            for _step in 0..3 {
+                if let Some(_e) = it.take_error() {
+                    self.info.errors_returned += 1;
+                    break;
+                }
+                let cur: Option<(Vec<u8>, Vec<u8>)> = if it.is_valid() { it.current().map(|(k, v)| (k.clone(), v.clone())) } else { None };
+                // no definitely-present key between the lower bound and the position may be skipped
+                let skipped = present.iter().find(|k| {
+                    let after_lower = if inclusive { **k >= lower } else { **k > lower };
+                    after_lower && cur.as_ref().map_or(true, |(ck, _)| *k < ck)
+                });
+                if let Some(k) = skipped {
+                    return Err(format!(
+                        "iterator positioned by seek({}) (+steps) without an error stands on {} and skipped {} whose write was acknowledged",
+                        hex(&target),
+                        cur.as_ref().map(|(k, _)| hex(k)).unwrap_or_else(|| "<end>".into()),
+                        hex(k)
+                    ));
+                }
+                let Some((ck, cv)) = cur else { break };
+                let ok_order = if inclusive { ck >= lower } else { ck > lower };
+                if !ok_order {
+                    return Err(format!("iterator positioned by seek({}) stands on {} which is before its lower bound {}", hex(&target), hex(&ck), hex(&lower)));
+                }
+                let allowed = self.allowed(&ck);
+                if !allowed.contains(&Some(cv.clone())) {
+                    return Err(format!(
+                        "iterator returned ({}, {}) but the acknowledged state allows only {:?}",
+                        hex(&ck),
+                        hex(&cv),
+                        allowed.iter().map(|a| a.as_ref().map(|v| hex(v))).collect::<Vec<_>>()
+                    ));
+                }
+                lower = ck;
+                inclusive = false;
+                it.next();
             }
         }
         Ok(())
@@ -376,6 +449,8 @@ fn run_point_inner(p: &FaultPoint) -> Result<FaultInfo, String> {
                 }
                 run.check_scan(d)?;
             }
+            Op::IterNew(_) => run.check_scan(d)?,
+            Op::IterOp(s, _) => run.check_seeks(d, pick(*s, case.universe.len()))?,
             Op::Flush => d.compact_range(Some(RESERVED_LO)..Some(RESERVED_HI)),
             Op::Compact(lo, hi) => {
                 let mut lo = lo.map(key);
